@@ -185,7 +185,7 @@ class Runner:
         if d is None:
             with self.lock:
                 self.ndirs += 1
-                d = os.path.join(self.work, "r%03d" % self.ndirs)
+                d = os.path.join(self.work, "r%d_%03d" % (os.getpid(), self.ndirs))
             os.makedirs(d)
             with open(os.path.join(d, "host_small"), "wb") as f:
                 f.write(b"host file content\n" * 40)
@@ -367,8 +367,26 @@ def plan(states, invs, tier, rng):
     return pairs
 
 
-def execute(runner, pairs):
-    """Run the pairs 16-way; pairs are grouped by state so that a worker copies a state once per group."""
+_WORKER = {}
+
+
+def _winit(b, work):
+    _WORKER["runner"] = Runner(b, work)
+
+
+def _wrun(task):
+    out = []
+    try:
+        for s, i in task:
+            out.append(_WORKER["runner"].run(s, i))
+    except SystemExit:
+        return {"broken": "a worker could not run %s on %s (see CHECK-BROKEN line above)" % (i.id, s.id)}
+    return out
+
+
+def execute(b, work, pairs):
+    """Run the pairs in min(NPROC, 16) worker PROCESSES (python threads serialise on the GIL); pairs are grouped by state
+    so that a worker copies a state once per group."""
     groups = collections.defaultdict(list)
     for k, (s, i) in enumerate(pairs):
         groups[s.id].append(k)
@@ -377,13 +395,12 @@ def execute(runner, pairs):
         for j in range(0, len(ks), 24):
             tasks.append(ks[j:j + 24])
     results = [None] * len(pairs)
-
-    def work(ks):
-        for k in ks:
-            s, i = pairs[k]
-            results[k] = runner.run(s, i)
-    with cf.ThreadPoolExecutor(max_workers=min(NPROC, 16)) as ex:
-        list(ex.map(work, tasks))
+    with cf.ProcessPoolExecutor(max_workers=min(NPROC, 16), initializer=_winit, initargs=(b, work)) as ex:
+        for ks, out in zip(tasks, ex.map(_wrun, [[pairs[k] for k in ks] for ks in tasks], chunksize=1)):
+            if isinstance(out, dict):
+                die_broken(out["broken"])
+            for k, r in zip(ks, out):
+                results[k] = r
     return results
 
 
@@ -416,9 +433,9 @@ def run(tier):
         invs = invocations()
         rng = random.Random(seed())
         pairs = plan(states, invs, tier, rng)
-        runner = Runner(b, work)
+        runner = Runner(b, work)            # parent-side runner: re-runs of candidates
         t0 = time.time()
-        results = execute(runner, pairs)
+        results = execute(b, work, pairs)
         trun = time.time() - t0
         return judge(ev, vd, runner, states, invs, pairs, results, work, tier, dict(gen_s=round(tgen, 1), run_s=round(trun, 1),
                                                                                   skipped_recipes=skipped))
